@@ -4,6 +4,7 @@ package modbus
 
 import (
 	"github.com/aldas/go-modbus-client/packet"
+	"math"
 )
 
 // C05 — fields extracted via the request builder equal the device's memory contents.
@@ -54,8 +55,94 @@ func vhRegisterField(i int, class int, base uint16, units [2]uint8) (Field, int,
 		f.Type = FieldTypeInt32
 	case 9:
 		f.Type = FieldTypeUint64
+	case 10:
+		f.Type = FieldTypeInt16
+	case 11:
+		f.Type = FieldTypeInt64
+	case 12:
+		f.Type = FieldTypeFloat32
+	case 13:
+		f.Type = FieldTypeByte
+		f.FromHighByte = vndBool("high")
+	case 14:
+		f.Type = FieldTypeUint8
+		f.FromHighByte = vndBool("high")
 	}
 	return f, si, ui
+}
+
+// vhDecodeField: the value of a field according to the documentation of the field types and byte orders, computed
+// from the device's memory image with integer arithmetic only (no library accessor is used): registers are
+// big-endian on the wire; LowWordFirst reverses the order of the registers of a multi-register value; LittleEndian
+// reverses the bytes of the (word-ordered) value; byte order 0 means the default BigEndianHighWordFirst; strings take
+// their characters low byte first when the order has the BigEndian flag and stop at the first NUL.
+func vhDecodeField(f Field, mem []byte, regOff int) interface{} {
+	order := f.ByteOrder
+	if order == 0 {
+		order = packet.BigEndianHighWordFirst
+	}
+	k := vhFieldSize(f)
+	if f.Type == FieldTypeString {
+		out := ""
+		for i := 0; i < int(f.Length); i++ {
+			c := mem[2*regOff+i]
+			if order&packet.BigEndian != 0 {
+				c = mem[2*regOff+(i^1)]
+			}
+			if c == 0 {
+				break
+			}
+			out += string(rune(c))
+		}
+		return out
+	}
+	var b [8]byte
+	for r := 0; r < k; r++ {
+		src := r
+		if order&packet.LowWordFirst != 0 {
+			src = k - 1 - r
+		}
+		b[2*r], b[2*r+1] = mem[2*(regOff+src)], mem[2*(regOff+src)+1]
+	}
+	v := uint64(0)
+	for i := 0; i < 2*k; i++ {
+		j := i
+		if order&packet.LittleEndian != 0 && k > 1 {
+			j = 2*k - 1 - i
+		}
+		v = v<<8 | uint64(b[j])
+	}
+	switch f.Type {
+	case FieldTypeBit:
+		return (uint16(v)>>f.Bit)&1 == 1
+	case FieldTypeByte, FieldTypeUint8:
+		if f.FromHighByte {
+			return uint8(v >> 8)
+		}
+		return uint8(v)
+	case FieldTypeInt8:
+		if f.FromHighByte {
+			return int8(v >> 8)
+		}
+		return int8(v)
+	case FieldTypeUint16:
+		return uint16(v)
+	case FieldTypeInt16:
+		return int16(v)
+	case FieldTypeUint32:
+		return uint32(v)
+	case FieldTypeInt32:
+		return int32(v)
+	case FieldTypeUint64:
+		return v
+	case FieldTypeInt64:
+		return int64(v)
+	case FieldTypeFloat32:
+		return math.Float32frombits(uint32(v))
+	case FieldTypeFloat64:
+		return math.Float64frombits(v)
+	}
+	return nil
 }
 
 func vhSameValue(a, b interface{}) bool {
@@ -194,6 +281,11 @@ func VH_C05_extract() {
 				vndAssert(werr == nil, "oracle decode")
 				vndCover("value-compared")
 				vndAssert(vhSameValue(v.Value, want), "extracted value equals the device's memory decoded at the field's address")
+				// and, for single-field lists (decoding does not depend on what else is batched), the same against a
+				// decoder that uses no library code (documented meaning of types and byte orders)
+				if k == 1 {
+					vndAssert(vhSameValue(v.Value, vhDecodeField(f, images[where[i][0]][where[i][1]], int(f.Address-base))), "extracted value equals the documented decoding of the device's memory")
+				}
 			}
 		}
 	}
